@@ -176,11 +176,13 @@ def stepC08 (st : St08) (oi : Json × Json) : St08 :=
   let v5 := if isNull im "before" then [] else
     (if usageEqB (nodeResOfJson (jget im "before")) prev then [] else [s!"C08:reported-before:{opname}"]) ++
     (if usageEqB (nodeResOfJson (jget im "after")) (picks.foldl (fun acc w => acc.sub w.toNodeRes) prev) then [] else [s!"C08:reported-after:{opname}"])
+  -- the other (counting) plugin's usage follows the same live set: a failed commit must leave it unchanged too
+  let v6 := if isNull im "ycount" || jnat (jget im "ycount") == live'.length then [] else [s!"C08:other-plugin-usage:{opname}"]
   let kind := (if fail then "otherfail-" else "") ++ opname ++ (if ok then "" else "-refused") ++
     (match op with | .realloc _ _ => (if ok then (if newW.cpuMap.length > 0 then "-bound" else "-unbound") ++ (if newW.numaMemory.length > 0 then "-numa" else "") else "")
                    | .alloc _ r => (if r.cpuBind then "-bound" else "") | _ => "")
   { s := s', implLive := live', implUndo := undo', usages := st.usages ++ [usage], agree := st.agree && agree,
-    spec := st.spec ++ v1 ++ v2 ++ v3 ++ v4 ++ v5, okOps := st.okOps + (if ok then 1 else 0), kinds := st.kinds ++ [kind] }
+    spec := st.spec ++ v1 ++ v2 ++ v3 ++ v4 ++ v5 ++ v6, okOps := st.okOps + (if ok then 1 else 0), kinds := st.kinds ++ [kind] }
 
 def handleC08 (j : Json) : Json :=
   let id := jget j "id"
@@ -261,10 +263,15 @@ def handleC09 (j : Json) : Json :=
           | some (_, x) => jint (jget c "cap") == jint (jget x "cap") && (jint (jget c "u") - jint (jget x "u")).natAbs ≤ 2000 &&
                            (jint (jget c "r") - jint (jget x "r")).natAbs ≤ 2000
           | none => false) && jint (jget r0 "total") == jint (jget r "total")) then [] else ["C09:order"]
-  let spec := ((runs.map specRun).flatten ++ (folds.map specFold).flatten ++ vOrder).eraseDups
+  -- schedules with a caller that gave up between two answers: an error, or the full merge over ALL plugins
+  let cancels := jarr (jget impl "cancel")
+  let vCancel := if cancels.all (fun r => jstr (jget r "err") != "" ||
+      ((specRun r).isEmpty && answerNear mNodes (jget r "nodes") false && jint (jget r "total") == mTotal))
+    then [] else ["C09:partial-merge-after-cancel"]
+  let spec := ((runs.map specRun).flatten ++ (folds.map specFold).flatten ++ vOrder ++ vCancel).eraseDups
   let zeroW := answers.any fun a => a.any fun (_, c) => c.weight == 0
   let cls := s!"merge{answers.length}" ++ (if mNodes.isEmpty then ":none" else if mNodes.length > 1 then ":many" else ":one") ++
-    (if zeroW then ":zero-weight" else "")
+    (if zeroW then ":zero-weight" else "") ++ (if cancels.isEmpty then "" else ":cancelled")
   verdict id (runsAgree && foldsAgree)
     (Json.mkObj [("total", ji mTotal), ("nodes", Json.mkObj (mNodes.map fun (n, c) =>
       (n, Json.mkObj [("cap", ji c.cap), ("u", ji (c.usage * scale12).floor), ("r", ji (c.rate * scale12).floor)])))])
